@@ -66,6 +66,11 @@ def run(ctx):
     ctx.rule('C16.ESC', lambda: rule_esc(ctx), 24)
     ctx.rule('C16.HASHLEN', lambda: rule_hashlen(ctx), 2)
     ctx.rule('C16.NOCHANGE', lambda: rule_nochange(ctx), 3)
+    # arguments that pass validation must still be inside the range the proof code can serve
+    from . import c11 as _c11
+    ctx.rule('C16.RANGE', lambda: _c11.rule_range(ctx), 4)
+    from .unbound import rule_unbound
+    ctx.rule('C16.UNBOUND', lambda: rule_unbound(ctx, 'C16.UNBOUND', ('sess', 'util')), 50)
 
 
 def rule_table(ctx):
